@@ -487,7 +487,7 @@ func ruleC03_4(c *Ctx, r *Rep) {
 			if returnsNilError(ret) {
 				continue
 			}
-			e := ret.Results[len(ret.Results)-1]
+			e := retLast(ret)
 			if !errFromCallsOnly(e) {
 				ok, bad = false, ret
 			}
